@@ -2,6 +2,7 @@
    file work/C06/CasesC06.v; executable definitions only). *)
 From Coq Require Import ZArith List Bool String Uint63.
 From KM Require Import Base.Bytes Base.Pack Model.Auth Model.AuthGate Model.Routes.
+From KM Require Model.IPExt.
 Import ListNotations.
 Open Scope N_scope.
 
@@ -25,6 +26,12 @@ Definition get_deny (denies : list (list N)) (i : N) : list N := nth (N.to_nat i
 Definition ck (t : token) (b : option basicx) : credx := {| k_cookie := Some t; k_basic := b |}.
 Definition nock (b : option basicx) : credx := {| k_cookie := None; k_basic := b |}.
 Definition bas (u : N) (ok : bool) : option basicx := Some {| b_user := u; b_ok := ok; b_err := false |}.
+(* the address side of a certificate: netblocks as minted (a.b.c.d/p), the extension made of them, peers *)
+Definition blk (a b c d p : N) : IPExt.netblock := IPExt.mk a b c d p.
+Definition xext (l : list IPExt.netblock) : option (list IPExt.family) := Some (IPExt.ext_of l).
+Definition p4 (a b c d : N) : IPExt.peer := IPExt.V4 a b c d.
+Definition p6 : IPExt.peer := IPExt.V6other.
+Definition pgarbage : IPExt.peer := IPExt.Garbage.
 Definition mkreq (sh : shape_t) (m o : N) : reqx :=
   {| q_meth := meth_of m; q_origin := origin_of o; q_tls := fst sh; q_cred := snd sh |}.
 
